@@ -141,18 +141,21 @@ def walkOracles (c : Cfg) : Option Wl → List Step → List (Out StepOut) → L
 /-- no-crash oracle on every step of the implementation's walk, the panicking one included -/
 def crashOracles (rel : Rel) : Option Wl → List Step → List (Out StepOut) → List (String × Bool)
   | d, s :: ss, o :: os =>
-    ("C07.sts_no_crash", noCrashFull rel s d (isPanic o)) ::
+    [("C07.sts_no_crash", noCrash rel s d (isPanic o)), ("C09.sts_no_crash", noCrash rel s d (isPanic o))] ++
       (match o with
        | .val v => crashOracles rel v.wl ss os
        | .panic => [])
   | _, _, _ => []
 
-/-- some `UpgradeBatch` of the implementation's walk met a DaemonSet without `rollingUpdate` -/
+/-- some `UpgradeBatch` of the implementation's walk met a non-empty DaemonSet without `rollingUpdate` -/
 def anyDsNoRU : Option Wl → List Step → List (Out StepOut) → Bool
   | d, s :: ss, o :: os =>
-    guardDsNoRU s d || (match o with
-                        | .val v => anyDsNoRU v.wl ss os
-                        | .panic => false)
+    (s.call == .upgradeBatch && (match d with
+                                 | some w => dsNoRU w && replicasOf w != some 0
+                                 | none => false)) ||
+      (match o with
+       | .val v => anyDsNoRU v.wl ss os
+       | .panic => false)
   | _, _, _ => false
 
 def pairOracles : List Step → List (Out StepOut) → List (String × Bool)
@@ -226,7 +229,7 @@ def handle : Handler := fun op inp impl => do
       (if wrote then [] else ["nowrite"]) ++
       (if steps.isEmpty then ["trivial"] else []) ++
       (stepTags d0 steps outs).eraseDups ++
-      (if anyDsNoRU d0 steps outs then ["guard:dsNoRollingUpdate"] else []) ++
+      (if anyDsNoRU d0 steps outs then ["upgrade:ds-no-rollingUpdate"] else []) ++
       (if (steps.zip steps.tail).any (fun (a, b) => sameCall a b) then ["repeat"] else [])
     -- oracles on the implementation's snapshots
     let stepH := walkOracles c d0 steps outs
